@@ -5,6 +5,7 @@ import (
 	"sort"
 	"strconv"
 	"strings"
+	"unicode/utf8"
 
 	"verifharness/internal/run"
 )
@@ -296,6 +297,7 @@ const (
 	fpStackZero   = "bars-stacked:non-positive-total-divide-by-zero"
 	fpReduceTies  = "reduce-sort:tied-sort-keys-map-order"
 	fpReduceEmpty = "reduce-csv:empty-single-group-key-stale-cell"
+	fpHistoLost   = "histo-snapshot:non-positive-row-with-long-key-not-drawn"
 	fpStateHisto  = "snapshot-render-state:histogram"
 	fpStateTable  = "snapshot-render-state:tablewriter"
 	fpStateHeat   = "snapshot-render-state:heatmap"
@@ -615,6 +617,27 @@ func genSpec(r *run.Rand, thorough bool, known knownFn) *Spec {
 
 	// ---- what the aggregation will see
 	ag := aggregate(s)
+	if s.Cmd == "histo" && known(fpHistoLost) && histoLostRow(s, ag) {
+		// a row with count <= 0 whose key is wider than the key column is never drawn (pinned witness):
+		// keep out of exactly that: lift those keys to a count of 1
+		first := map[string]int{}
+		for i := range s.Lines {
+			if s.lineClass(&s.Lines[i]) == 'M' {
+				k := s.Parts[0].eval(&s.Lines[i])
+				if _, ok := first[k]; !ok {
+					first[k] = i
+				}
+			}
+		}
+		for _, k := range sortedKeys(ag.histo) {
+			if v := ag.histo[k]; v <= 0 && utf8.RuneCountInString(k) > 16 && len(s.Parts) >= 2 {
+				l := s.Lines[first[k]]
+				l.F[3] = strconv.FormatInt(1-v, 10)
+				s.Lines = append(s.Lines, l)
+			}
+		}
+		ag = aggregate(s)
+	}
 	s.HasNeg = ag.hasNeg
 
 	// ---- extraction form
@@ -757,7 +780,6 @@ func genSpec(r *run.Rand, thorough bool, known knownFn) *Spec {
 	}
 	return s
 }
-
 
 func genReduce(r *run.Rand, s *Spec, known knownFn) {
 	rd := &Reduce{}
@@ -930,6 +952,17 @@ func genReduce(r *run.Rand, s *Spec, known knownFn) {
 	ag = aggregate(s)
 	s.Snap = smartSortSafe(ag.reduceSortKeys) && !ag.reduceSortTies
 	s.Monotone = len(ag.reduce)+1 <= s.N && len(rd.Groups)+len(rd.Accs) <= 10
+}
+
+// histoLostRow: some key that belongs on the histogram screen has a count <= 0 and is wider than the
+// default key column (16): the class of the known finding fpHistoLost.
+func histoLostRow(s *Spec, a *Agg) bool {
+	for k, v := range a.histo {
+		if v <= 0 && v >= s.AtLeast && utf8.RuneCountInString(k) > 16 {
+			return true
+		}
+	}
+	return false
 }
 
 // ---------------------------------------------------------------- command line
